@@ -124,7 +124,7 @@ class OpaqueBytes:
     def __len__(self):
         return self.n
 
-    def decode(self, *a):
+    def decode(self, encoding="utf-8", errors="strict"):
         return OpaqueText(self.n)
 
 
